@@ -71,7 +71,7 @@ func (ex *Exec) invSchemaParts(db *SymDB) []namedTerm {
 			lo, hi := tt.BV(uint64(0xffffffff80000000), 64), tt.BV(0x7fffffff, 64)
 			for ci := range t.def.cols {
 				c := &t.def.cols[ci]
-				if c.typ == "INTEGER" && c.width == 32 {
+				if c.typ == "INTEGER" && c.width == 32 && !c.autoinc {
 					for _, r := range t.rows {
 						cs = append(cs, tt.Implies(tt.And(r.present, tt.Not(r.cols[ci].null)), tt.And(tt.SLe(lo, r.cols[ci].v), tt.SLe(r.cols[ci].v, hi))))
 					}
